@@ -13,12 +13,12 @@ import (
 // property / array item / definition / allOf-anyOf branch position, at depth 1..2.
 func hostileMembers(cfg gen.Config) []member {
 	var out []member
-	kinds := []string{"null-property", "null-allOf", "null-anyOf", "null-anyOf-untyped", "null-allOf-untyped", "null-definition", "empty-enum", "nonprimitive-enum", "unknown-type", "missing-definition", "bad-pointer", "empty-definition-name",
+	kinds := []string{"null-property", "null-allOf", "null-anyOf", "null-anyOf-untyped", "null-allOf-untyped", "null-nested-anyOf", "null-nested-allOf", "null-definition", "empty-enum", "nonprimitive-enum", "unknown-type", "missing-definition", "bad-pointer", "empty-definition-name",
 		"unknown-type-enum", "unknown-type-int-enum"}
 	for _, k := range kinds {
 		bad := func() *fam.Spec {
 			switch k {
-			case "null-property", "null-allOf", "null-anyOf", "null-anyOf-untyped", "null-allOf-untyped", "null-definition":
+			case "null-property", "null-allOf", "null-anyOf", "null-anyOf-untyped", "null-allOf-untyped", "null-nested-anyOf", "null-nested-allOf", "null-definition":
 				return &fam.Spec{Kind: "object", Hostile: k, Props: []*fam.Prop{{Label: "ok", Spec: &fam.Spec{Kind: "string"}}}}
 			case "empty-enum", "nonprimitive-enum":
 				return &fam.Spec{Kind: "string", Hostile: k}
